@@ -213,6 +213,23 @@ def run(chk):
                               dict(case=c[:300], label=lab, impl=r, profile=prof))
     chk.stream("flat operator chains of 1000..20000 operands compiled, their context cloned twice, executed and dropped",
                2 * len(ccases), len(ccases), exhaustive=False)
+    # values nested by accumulation: reduce can build a value as deep as its receiver is long, and values are cloned and
+    # dropped recursively.  Up to a few thousand levels this works; beyond that the recorded finding applies.
+    acases, alabels, akeyed = [], [], []
+    for n in [10, 100, 1000, 3000, 10000, 30000] + ([] if quick else [100000]):
+        for src in ["size(l.reduce(a, x, [a], []))", "size(l.reduce(a, x, [x, a], []))", "size(l.reduce(a, x, {'k': a}, {}).k)",
+                    "size(l.reduce(a, x, a + [x], []))", "l.reduce(a, x, [a], [1]) == l.reduce(a, x, [a], [2])"]:
+            acases.append(evalsrc_case(src, binds=[("l", vlist([vi(i % 7) for i in range(n)]))], ufuncs=[], std=False))
+            alabels.append("%s with %d elements" % (src, n))
+            akeyed.append(n > 3000 and "a + [x]" not in src)
+    for prof in ("debug", "release"):
+        aimpl = run_impl(acases, prof, isolate=True, timeout=900)
+        for lab, c, r, keyed in zip(alabels, acases, aimpl, akeyed):
+            if is_dead(r):
+                chk.violation("a value nested by accumulation exhausts the stack when it is cloned, compared or dropped (%s build)" % prof,
+                              dict(case=c[:300], label=lab, impl=r, profile=prof), key="deep-value-by-accumulation" if keyed else None)
+    chk.stream("reduce building values 10..100000 levels deep (and flat ones of the same size), measured, compared and dropped",
+               2 * len(acases), len(acases), exhaustive=False)
     lmodel = run_model([c for c, lab in zip(lcases, llabels) if int(lab.split(" x ")[1]) <= 1000])
     for (c, lab), r, m in zip([(c, lab) for c, lab in zip(lcases, llabels) if int(lab.split(" x ")[1]) <= 1000], [r for r, lab in zip(limpl, llabels) if int(lab.split(" x ")[1]) <= 1000], lmodel):
         if not is_dead(r) and m != "UNMOD" and m != r:
